@@ -643,11 +643,15 @@ class ExprMixin:
     def field_lv(self, p, stype, name, ft):
         """Heap cell of field `name` of the struct p points to (p may be an interior pointer)."""
         root = getattr(p, "root", None)
+        if root is not None and root[0] == "@opaque":
+            raise Unsupported("access through an interior pointer &a[i]")
         if root is not None:
             return HeapLV(p.oid, root[0], ".".join(root[1] + (name,)), ft)
         return HeapLV(p.oid, stype, name, ft)
 
     def deref_lv(self, p, t):
+        if getattr(p, "root", None) is not None and p.root[0] == "@opaque":
+            raise Unsupported("access through an interior pointer &a[i]")
         if t.under().k == "struct":
             return _StructHeapLV(p, t, self)
         return HeapLV(p.oid, t, None, t)
@@ -798,7 +802,13 @@ class ExprMixin:
                     return PtrV(p.oid, self.T(x), root=(root[0], root[1] + tuple(pp[1] for pp in path)))
             raise Unsupported("interior pointer &x.f")
         if k == "IndexExpr":
-            raise Unsupported("interior pointer &a[i]")
+            # &s[i] on a slice: the index obligation is generated as for a read; the pointer itself is an opaque
+            # non-nil address (nothing may be read or written through it inside the function under proof -
+            # deref_lv/field_lv refuse it - so the missing alias with the slice cell cannot be observed).
+            if self.T(x["X"]).under().k != "slice":
+                raise Unsupported("interior pointer &a[i]")
+            self.lvalue(x, st)     # emits index@site
+            return PtrV(self.fresh_rid(), self.T(x), root=("@opaque", ()))
         raise Unsupported("address of " + k)
 
     def new_object(self, st, v, t):
